@@ -39,6 +39,8 @@ ATTACKS = {
     "G_FlushBeforeAck": [("a", dict(B, G_FlushBeforeAck="FALSE", MaxCrash=1, MaxElections=1), ["Inv_C06"])],
     "G_LeaderFlush": [("a", dict(B, G_LeaderFlush="FALSE", MaxCrash=1, MaxElections=1), ["Inv_C06"])],
     "G_StaleTermAppend": [("a", dict(B, G_StaleTermAppend="FALSE"), ["Inv_C01", "Inv_C02", "Inv_C04", "Inv_C05"])],
+    "G_CommitMonotone": [("a", {"MaxTerm": 2, "MaxLog": 4, "MaxInflight": 2, "MaxElections": 1, "MaxCmds": 2,
+                                "Orphans": "TRUE", "G_CommitMonotone": "FALSE"}, ["Inv_C19"])],
     # leadership transfer (2 voters: the smallest cluster in which a transfer is possible)
     "G_XferCaughtUp": [("a", dict(X2, G_XferCaughtUp="FALSE"), ["Inv_C16"])],
     "G_XferBlocksEntries": [("a", dict(X2, G_XferBlocksEntries="FALSE", MaxCmds=2), ["Inv_C16"])],
